@@ -97,7 +97,9 @@ func (s *State) hashUF(name string, v Value) Value {
 		for i := 0; i < len(x); i++ {
 			packed |= uint64(x[i]) << (8 * uint(i))
 		}
-		return App("uf_"+name, 64, Const(64, packed), Const(64, uint64(len(x))))
+		t := App("uf_"+name, 64, Const(64, packed), Const(64, uint64(len(x))))
+		s.noteApp(t)
+		return t
 	case Slice:
 		n, ok := s.concreteMax(x.Len)
 		if !ok || n > 8 {
@@ -109,7 +111,9 @@ func (s *State) hashUF(name string, v Value) Value {
 			b := s.loadRaw(q, 1)
 			packed = BOr(packed, Shl(ZExt(b, 64), Const(64, uint64(8*i))))
 		}
-		return App("uf_"+name, 64, packed, Const(64, uint64(n)))
+		t := App("uf_"+name, 64, packed, Const(64, uint64(n)))
+		s.noteApp(t)
+		return t
 	}
 	panic(execAbort{"unsupported", fmt.Sprintf("hash of %T", v)})
 }
@@ -123,3 +127,15 @@ func (s *State) asmCall(fn *ssa.Function, args []Value) (Value, bool) {
 }
 
 var _ = types.Typ
+
+func (s *State) noteApp(t *Term) {
+	if t.Op != OApp {
+		return
+	}
+	for _, a := range s.apps {
+		if a == t {
+			return
+		}
+	}
+	s.apps = append(s.apps, t)
+}
